@@ -14,6 +14,30 @@ for tc in ET.parse(out).getroot().iter("testcase"):
 os.unlink(out)
 want = set(base["stable_pass"])
 missing = sorted(want - passed)
+# flaky under machine load (subprocess timeouts, loopback port contention): re-run the missing ones on their own
+for attempt in range(2):
+    if not missing or len(missing) > 60:
+        break
+    ids = []
+    for m in missing:
+        cls, name = m.split("::", 1)
+        parts = cls.split(".")
+        # tests.test_x.TestY -> tests/test_x.py::TestY::name
+        mod = []
+        rest = []
+        for p_ in parts:
+            (rest if (p_[:1].isupper() and mod) else mod).append(p_)
+        ids.append("/".join(mod) + ".py::" + "::".join(rest + [name]))
+    out2 = tempfile.mktemp(suffix=".xml")
+    subprocess.run(["/venv/bin/python", "-m", "pytest", "-q", "-p", "no:cacheprovider", "--timeout=900", "--junitxml=" + out2] + ids, cwd=repo, env=env, stdout=subprocess.DEVNULL, stderr=subprocess.DEVNULL)
+    try:
+        for tc in ET.parse(out2).getroot().iter("testcase"):
+            if not any(c.tag in ("failure", "error", "skipped") for c in tc):
+                passed.add(tc.get("classname") + "::" + tc.get("name"))
+        os.unlink(out2)
+    except Exception:
+        pass
+    missing = sorted(want - passed)
 print("stable_pass:", len(want), "passed now:", len(passed), "missing:", len(missing))
 for m in missing[:40]:
     print("  MISSING", m)
